@@ -36,8 +36,8 @@
    message counts as a notification when it is a request); null params are read as absent by the
    member parser: the message denoted is canon (norm m). *)
 From Coq Require Import List NArith ZArith Bool.
-From JV Require Import Bytes Json JsonProofs JsonPrint JsonTree JsonEq Msg Wire WireProofs WireSpecs WireMore WireLink.
-From JV Require SrvModel SrvLemmas CliModel CliLemmas.
+From JV Require Import Bytes Json JsonProofs JsonPrint JsonTree JsonEq Msg Wire WireProofs WireSpecs WireMore WireLink WireBridge.
+From JV Require SrvModel SrvLemmas CliModel CliLemmas ErrsMore.
 Import ListNotations.
 Local Open Scope N_scope.
 
@@ -358,3 +358,38 @@ Theorem c13_client_callback_replies : forall s l s' os ok id o,
     parse_msgs bytes = InMsgs false [canon (jmsg_of_cbout id o)].
 Proof. exact cli_sendrsp_bytes. Qed.
 Print Assumptions c13_client_callback_replies.
+
+(* -- bridge bodies (wire/WireBridge.v): json.Marshal of a Response = compaction of what the encoder writes;
+      writeJSON = compaction of one reply, or an array of compacted replies ------------------------------- *)
+
+Theorem c13_compact_keeps_utf8 : forall p q : bytes, compact p = Some q -> valid_utf8 p = true -> valid_utf8 q = true.
+Proof. exact ErrsMore.compact_valid_utf8. Qed.
+Print Assumptions c13_compact_keeps_utf8.
+
+Theorem c13_bridge_member_reply : forall id err result t,
+  let m := {| j_id := id; j_method := []; j_params := []; j_error := err; j_result := result; j_err := None |} in
+  msg_rt_at' 1 m -> response_marshal id err result = Some t ->
+  exists t', bridge_member_response id err result = Some t' /\
+    tight_at 1 t' = true /\ no_ctl t' = true /\ parse t' = parse t /\ parse_member t = canon m /\
+    (msg_ok' m -> valid_utf8 t' = true).
+Proof. exact bridge_member_reply. Qed.
+Print Assumptions c13_bridge_member_reply.
+
+Theorem c13_bridge_body_reply : forall msgs : list bytes, msgs <> [] -> Forall (fun m => tight_at 1 m = true) msgs ->
+  exists body, bridge_body msgs = Some body /\ no_ctl body = true /\ Json.valid body = true /\
+    (Forall (fun m => valid_utf8 m = true) msgs -> valid_utf8 body = true) /\
+    match msgs with
+    | [m] => parse body = parse m
+    | _ => exists xs, parse body = Some (JArr xs) /\ Forall2 (fun m x => parse m = Some x) msgs xs
+    end.
+Proof. exact bridge_body_reply. Qed.
+Print Assumptions c13_bridge_body_reply.
+
+(* finding (benign): an id holding < > & U+2028 U+2029 comes back JSON-equal, not byte-equal *)
+Theorem c13_bridge_rewrites_html_ids :
+  exists t t', response_marshal [34; 60; 34] None [49] = Some t /\ bridge_member_response [34; 60; 34] None [49] = Some t' /\
+    t <> t' /\ parse t' = parse t /\
+    j_id (parse_member t) = [34; 60; 34] /\ j_id (parse_member t') = [34; 92; 117; 48; 48; 51; 99; 34] /\
+    parse [34; 92; 117; 48; 48; 51; 99; 34] = parse [34; 60; 34].
+Proof. exact bridge_rewrites_html_ids. Qed.
+Print Assumptions c13_bridge_rewrites_html_ids.
